@@ -1,7 +1,9 @@
 -------------------------- MODULE Trace_SortedKV --------------------------
 (* Trace validation of recorded executions of a REAL perkeep sorted.KeyValue (memory, leveldb, kvfile,
    sqlite, or buffer.New(memory, one of these)) against the SortedKV reference map.  The trace is a
-   concatenation of independent histories, each started by a "reset" line (a fresh, empty store).
+   concatenation of independent histories, each started by a "reset" line: a fresh store whose content
+   is "pre", a list of [key, value] pairs - empty except for the aged configurations, where the harness has
+   written (and, generations ago, closed and reopened) that content itself through the same interface.
 
    One line per completed public call, all of the same shape:
      {"ev":"op","op":..,"a":..,"b":..,"muts":[[kind,key,value],..],"res":..,"v":..,"list":[[key,value],..]}
@@ -26,7 +28,8 @@ TInit == /\ l = 1 /\ dead = TRUE
          /\ Init
 
 TReset == /\ l <= Len(Trace) /\ Ev.ev = "reset"
-          /\ m' = [k \in Keys |-> Absent]
+          /\ m' = [k \in Keys |-> IF \E i \in 1..Len(Ev.pre) : Ev.pre[i][1] = k
+                                    THEN Ev.pre[CHOOSE i \in 1..Len(Ev.pre) : Ev.pre[i][1] = k][2] ELSE Absent]
           /\ reply' = R(NoCall, "ok", 0, <<>>)
           /\ dead' = FALSE /\ l' = l + 1
 
